@@ -6,13 +6,19 @@
    parameters p, conditions c and loss function l; in the toy instance it is COMPUTED through `funcs`,
    `route_coords`, `eq_args`, so the correspondence run ties the routing theorems to the real classes.
 
+   Tie to the source: coq/gen/Gen_C04.v is REGENERATED on every run from neurodiffeq/solvers.py by the fail-closed
+   emitter tools/props/t_C04.py; the C04_gen_* theorems state that the generated definitions (what the equations of a
+   BundleSolver1D receive, the spherical coordinate slicing, the n_batches guard, the loss / metric entries, when the
+   plain optimiser zeroes and steps) equal the model's for all inputs.
+
    History: finding F9 (SolverSpherical passed only r to a VARIADIC condition) was repaired in /repo (commit
    16898fd); the model follows the repaired code and C04_route_coords_spec / C04_route_coords_all are the
    full-strength statements.  If the defect returns, the toy correspondence and the oracle of
    tools/props/C04.py report it. *)
 From Coq Require Import List Arith Bool Lia.
 From ND.model Require Import Solver.
-From ND.proofs Require Import C15_base C15_bookkeeping C05_best C04_epoch.
+From ND.gen Require Import Gen_C04.
+From ND.proofs Require Import C15_base C15_bookkeeping C05_best C04_epoch C04_gen.
 Import ListNotations.
 
 Section P_C04_routing.
@@ -59,6 +65,23 @@ Section P_C04_routing.
     cls <> Bundle -> eq_args cls nf idx fs coords = Some (fs ++ coords).
   Proof. exact (plain_routing T). Qed.
 End P_C04_routing.
+
+(* ---- the generated definitions equal the model's (all inputs) *)
+Theorem C04_gen_eq_args : forall (T : Type) (nf : nat) (idx : list nat) (fs coords : list T),
+  gen_eq_args nf idx (fs ++ coords) = eq_args Bundle nf idx fs coords.
+Proof. exact (@gen_eq_args_is_model). Qed.
+
+Theorem C04_gen_route_coords : forall (T Cd : Type) (sig : Cd -> csig) (c : Cd) (coords : list T),
+  route_coords sig Spherical c coords = gen_route_coords (sig_nparams (sig c)) (sig_variadic (sig c)) coords.
+Proof. exact (@gen_route_coords_is_model). Qed.
+
+Theorem C04_gen_epoch_skipped : forall n : nat, gen_epoch_skipped n = (n =? 0).
+Proof. exact gen_epoch_skipped_is_model. Qed.
+
+Theorem C04_gen_plain_train : forall (ph : phase) (clo : bool),
+  is_train ph && negb clo = gen_plain_train (negb (is_train ph)) clo /\
+  is_train ph && negb clo = gen_zero_first (negb (is_train ph)) clo.
+Proof. exact gen_plain_train_is_model. Qed.
 
 Section P_C04.
   Variables P G B V O C : Type.
@@ -285,6 +308,11 @@ Section P_C04.
   Local Notation op_blind := (C04_epoch.op_blind P G V O C).
   Local Notation trajectory_independent_of_validation := (C04_epoch.trajectory_independent_of_validation P G B V O C loss gradl metric nmetrics gzero gadd vzero vadd vdivn vltb requires_closure opt_step closure_opt draw).
   Local Notation epoch_trajectory_independent_of_validation := (C04_epoch.epoch_trajectory_independent_of_validation P G B V O C loss gradl metric nmetrics gzero gadd vzero vadd vdivn vltb requires_closure opt_step closure_opt draw).
+  Local Notation gen_guard_is_model := (C04_gen.gen_guard_is_model P G B V O C loss gradl metric nmetrics gzero gadd vzero vadd vdivn vltb requires_closure opt_step closure_opt draw).
+  Local Notation gen_entries_are_model := (C04_gen.gen_entries_are_model P G B V O C loss gradl metric nmetrics gzero gadd vzero vadd vdivn vltb requires_closure opt_step closure_opt draw).
+  Local Notation gen_tracks_is_model := (C04_gen.gen_tracks_is_model P G V O C).
+  Local Notation gen_better_is_model := (C04_gen.gen_better_is_model P G V O C vltb).
+  Local Notation gen_update_best_is_model := (C04_gen.gen_update_best_is_model P G V O C vltb).
 
   Theorem C04_train_epoch_draws : forall ph (s : state),
     cur ph (run_epoch ph s) = cur ph s + nb ph s /\
@@ -351,5 +379,15 @@ Section P_C04.
     map train_view (fit_states m 0 cbs (set_local_epoch 0 (set_max_local m (set_stop false s1)))) =
     map train_view (fit_states m 0 cbs (set_local_epoch 0 (set_max_local m (set_stop false s2)))).
   Proof. exact epoch_trajectory_independent_of_validation. Qed.
+
+  Theorem C04_gen_guard : forall ph (s : state), gen_epoch_skipped (nb ph s) = true -> run_epoch ph s = s.
+  Proof. exact gen_guard_is_model. Qed.
+
+  Theorem C04_gen_entries : forall ph (s : state), gen_epoch_skipped (nb ph s) = false ->
+    hist ph (run_epoch ph s) =
+      hist ph s ++ [gen_loss_entry vdivn (a_eloss (snd (epoch_batches ph s))) (nb ph s)] /\
+    mhist ph (run_epoch ph s) =
+      push_each (mhist ph s) (map (fun v => gen_metric_entry vdivn v (nb ph s)) (a_met (snd (epoch_batches ph s)))).
+  Proof. exact gen_entries_are_model. Qed.
 
 End P_C04.
